@@ -171,10 +171,12 @@ theorem verifyFull_opsSub (K : CurveOk p C) (isX : ℤ → Bool) (c : ℤ) (P : 
 theorem inSubOf (hcof : ∀ g : Pt p C.toCurveGroup, C.n • g = 0) {P : Point}
     (hv : AValid p C.toCurveGroup P) (hr : RedA C.toCurveGroup P) : InSub p C P := ⟨hv, hr, hcof _⟩
 
-/-- a pair `point_from_pub_key` accepts (on the curve, `y ≠ 0`), with `x` reduced, is a reduced valid pair -/
-theorem valid_of_pubKeyOk (K : CurveOk p C) {Q : Point} (h : pubKeyOk C Q = true) (hx : 0 ≤ Q.1 ∧ Q.1 < C.p) :
+/-- a pair `point_from_pub_key` accepts (coordinates in range, on the curve, `y ≠ 0`) is a reduced valid pair -/
+theorem valid_of_pubKeyOk (K : CurveOk p C) {Q : Point} (h : pubKeyOk C Q = true) :
     AValid p C.toCurveGroup Q ∧ RedA C.toCurveGroup Q ∧ Q.2 ≠ 0 := by
   unfold pubKeyOk at h
+  rw [Bool.and_eq_true, decide_eq_true_eq] at h
+  obtain ⟨hx, h⟩ := h
   cases hoc : isOnCurve C.toCurveGroup Q with
   | none => simp [hoc] at h
   | some b =>
@@ -257,15 +259,15 @@ theorem ecdsa_verify_api_is_sec1_raw (K : CurveOk p C)
     (fun P hP => isXCoord_complete K P hP) c ⟨Q, inSubOf hcof hv hr⟩ r s
   rw [← Grp.verify_iff_SEC1 (lawfulGroup_ec K), ← h, verifyFull_opsSub]
 
-/-- the same two, with key validity as the API decides it (`pubKeyOk`: `point_from_pub_key` on a tuple) -/
+/-- the same two, with key validity as the API decides it (`pubKeyOk`: `point_from_pub_key` on a tuple, range screens included) -/
 theorem ecdsa_verify_api_is_sec1_key (K : CurveOk p C)
     (hcof : ∀ g : Pt p C.toCurveGroup, C.n • g = 0) (c : ℤ) (Q : Point)
-    (hk : pubKeyOk C Q = true) (hx : 0 ≤ Q.1 ∧ Q.1 < C.p) (r s : ℤ) :
+    (hk : pubKeyOk C Q = true) (r s : ℤ) :
     (verifyFull (EC.ops C) (isXCoord C) c Q r s = true ↔ Ecdsa.verify (EC.ops C) c Q r s = true) ∧
     (Ecdsa.verify (EC.ops C) c Q r s = true ↔
-      Grp.SEC1 (lawfulGroup_ec K) c ⟨Q, inSubOf hcof (valid_of_pubKeyOk K hk hx).1
-        (valid_of_pubKeyOk K hk hx).2.1⟩ r s) := by
-  obtain ⟨hv, hr, _⟩ := valid_of_pubKeyOk K hk hx
+      Grp.SEC1 (lawfulGroup_ec K) c ⟨Q, inSubOf hcof (valid_of_pubKeyOk K hk).1
+        (valid_of_pubKeyOk K hk).2.1⟩ r s) := by
+  obtain ⟨hv, hr, _⟩ := valid_of_pubKeyOk K hk
   exact ⟨by rw [ecdsa_verify_api_is_sec1_raw K hcof c Q hv hr, ecdsa_verify_iff_sec1_raw K hcof c Q hv hr],
     ecdsa_verify_iff_sec1_raw K hcof c Q hv hr r s⟩
 
@@ -275,16 +277,16 @@ end
 noncomputable def secpLawfulG : LawfulGroup secpOps SecpGroup :=
   @lawfulGroup_ec secp256k1_p ⟨secp256k1_p_prime⟩ secp256k1 secpOk
 
-/-- secp256k1, any key the API accepts.  `hcof` — cofactor one: every point of `y² = x³ + 7` over `F_p` is killed by
-`n`, i.e. the curve has exactly `n` points — is NOT proved here (no point count); it is the one named assumption. -/
-theorem ecdsa_verify_api_is_sec1_secp256k1 (hcof : ∀ g : SecpGroup, secp256k1.n • g = 0) (c : ℤ) (Q : Point)
-    (hk : pubKeyOk secp256k1 Q = true) (hx : 0 ≤ Q.1 ∧ Q.1 < secp256k1.p) (r s : ℤ) :
+/-- secp256k1, any key the API accepts.  `SecpCofactorOne` (Proofs/E2E/Basic.lean: every point of `y² = x³ + 7` over
+`F_p` is killed by `n`, i.e. the curve has exactly `n` points) is NOT proved (no point count): the one named assumption. -/
+theorem ecdsa_verify_api_is_sec1_secp256k1 (hcof : SecpCofactorOne) (c : ℤ) (Q : Point)
+    (hk : pubKeyOk secp256k1 Q = true) (r s : ℤ) :
     (verifyFull (EC.ops secp256k1) (isXCoord secp256k1) c Q r s = true ↔
       Ecdsa.verify (EC.ops secp256k1) c Q r s = true) ∧
     (Ecdsa.verify (EC.ops secp256k1) c Q r s = true ↔
       Grp.SEC1 secpLawfulG c ⟨Q, @inSubOf secp256k1_p ⟨secp256k1_p_prime⟩ secp256k1 hcof _
-        (@valid_of_pubKeyOk secp256k1_p ⟨secp256k1_p_prime⟩ secp256k1 secpOk Q hk hx).1
-        (@valid_of_pubKeyOk secp256k1_p ⟨secp256k1_p_prime⟩ secp256k1 secpOk Q hk hx).2.1⟩ r s) :=
-  @ecdsa_verify_api_is_sec1_key secp256k1_p ⟨secp256k1_p_prime⟩ secp256k1 secpOk hcof c Q hk hx r s
+        (@valid_of_pubKeyOk secp256k1_p ⟨secp256k1_p_prime⟩ secp256k1 secpOk Q hk).1
+        (@valid_of_pubKeyOk secp256k1_p ⟨secp256k1_p_prime⟩ secp256k1 secpOk Q hk).2.1⟩ r s) :=
+  @ecdsa_verify_api_is_sec1_key secp256k1_p ⟨secp256k1_p_prime⟩ secp256k1 secpOk hcof c Q hk r s
 
 end Btc.E2E
